@@ -575,6 +575,38 @@ func (fc *FnCtx) evalCall(x *ast.CallExpr, env *Env) Val {
 		n := env.with(id.Name, Val{K: KStr, S: bv, T: types.Typ[types.String]})
 		n.depth = env.depth + 1
 		return boolV(fmt.Sprintf("(forall ((%s Str)) %s)", bv, fc.evalBool(x.Args[1], n)))
+	case "forallKey":
+		// forallKey(k, m, P): P holds for every key k present in map m (k has m's key type;
+		// the trigger is the membership test itself)
+		id := x.Args[0].(*ast.Ident)
+		m := arg(1)
+		mt, ok := m.T.Underlying().(*types.Map)
+		if !ok {
+			panic(specErr("forallKey: second argument must be a map"))
+		}
+		bv := sym("qk_" + id.Name + fmt.Sprintf("_%d", env.depth))
+		ks := fc.keySort(mt)
+		kv := Val{K: kindOfType(mt.Key()), S: bv, T: mt.Key()}
+		guard := "true"
+		switch kv.K {
+		case KStruct:
+			su := structOf(mt.Key())
+			name := "Key<" + typeName(mt.Key()) + ">"
+			for i := 0; i < su.NumFields(); i++ {
+				ft := su.Field(i).Type()
+				f := Val{K: kindOfType(ft), S: app(sym(name+"."+su.Field(i).Name()), bv), T: ft}
+				if f.K == KInt {
+					guard = and(guard, rangeFact(f.S, ft))
+				}
+				kv.Fs = append(kv.Fs, f)
+			}
+		case KInt:
+			guard = rangeFact(bv, mt.Key())
+		}
+		n := env.with(id.Name, kv)
+		n.depth = env.depth + 1
+		in := fc.mapDom(env.state(), m, mt, bv)
+		return boolV(fmt.Sprintf("(forall ((%s %s)) (! %s :pattern (%s)))", bv, ks, implies(and(in, guard), fc.evalBool(x.Args[2], n)), in))
 	case "forall", "exists":
 		id := x.Args[0].(*ast.Ident)
 		bv := sym("q_" + id.Name + fmt.Sprintf("_%d", env.depth))
